@@ -126,51 +126,140 @@ def parse_model(txt):
 
 
 class Query:
-    def __init__(s, name, script, expect='unsat', kind='claim', required=True, cap=None, ndefs=0, meaning='', get=None):
+    def __init__(s, name, script, expect='unsat', kind='claim', required=True, cap=None, ndefs=0, meaning='', get=None, cases=None):
         s.name, s.script, s.expect, s.kind, s.required, s.cap, s.ndefs, s.meaning = name, script, expect, kind, required, cap, ndefs, meaning
+        s.cases = cases        # optional case split: list of (label, smt assertions text); verdict unsat iff every case is unsat
         s.verdict = None
         s.secs = 0.0
         s.model = {}
+        s.by = {}              # solver -> verdict summary
         s.z3 = None
         s.z3_secs = 0.0
         s.raw = ''
+        s.disagree = None
 
     def as_json(s):
-        d = {'name': s.name, 'kind': s.kind, 'expect': s.expect, 'solver': 'cvc5', 'verdict': s.verdict, 'seconds': round(s.secs, 2), 'definitions': s.ndefs, 'required': s.required}
-        if s.z3 is not None:
-            d['z3'] = s.z3
-            d['z3_seconds'] = round(s.z3_secs, 2)
+        d = {'name': s.name, 'kind': s.kind, 'expect': s.expect, 'verdict': s.verdict, 'seconds': round(s.secs, 2), 'definitions': s.ndefs, 'required': s.required,
+             'solvers': s.by}
+        if s.cases:
+            d['case_split'] = len(s.cases)
         if s.meaning:
             d['meaning'] = s.meaning
         return d
 
 
-def run_queries(queries, cap, z3cap, workers=None, log=None):
-    """decide every query with cvc5 (primary) and z3-new (second opinion, short cap) in parallel"""
-    workers = workers or max(2, NCPU - 2)
+def portfolio(script, cap, grace, tag):
+    """cvc5 and z3-new race on one script; the first definite verdict wins, the other gets `grace` more seconds
+    (agreement is recorded when both finish). Returns (verdict, model_text, seconds, {solver: verdict})."""
+    d = os.path.join(scratch(), 'smt')
+    os.makedirs(d, exist_ok=True)
+    base = os.path.join(d, re.sub(r'[^A-Za-z0-9_.=-]', '_', tag)[:100] + '.' + hashlib.sha1(script.encode()).hexdigest()[:8])
+    procs = {}
+    t0 = time.time()
+    for sv in ('cvc5', 'z3'):
+        fn = f'{base}.{sv}.smt2'
+        with open(fn, 'w') as fh:
+            fh.write(script)
+        procs[sv] = subprocess.Popen(SOLVERS[sv](fn, cap), stdout=subprocess.PIPE, stderr=subprocess.STDOUT, text=True)
+    res = {}
+    first = None
+    deadline = t0 + cap + 10
+    while procs:
+        for sv in list(procs):
+            p = procs[sv]
+            if p.poll() is not None:
+                out = p.stdout.read()
+                res[sv] = classify(out, time.time() - t0, cap) + (time.time() - t0,)
+                del procs[sv]
+                if first is None and res[sv][0] in ('sat', 'unsat'):
+                    first = sv
+                    deadline = min(deadline, time.time() + grace)
+        if procs and time.time() > deadline:
+            for sv, p in procs.items():
+                p.kill()
+                p.wait()
+                res[sv] = ('timeout' if first is None else 'stopped', '', time.time() - t0)
+            procs = {}
+        if procs:
+            time.sleep(0.02)
+    by = {sv: r[0] for sv, r in res.items()}
+    defin = {sv: r for sv, r in res.items() if r[0] in ('sat', 'unsat')}
+    if len({r[0] for r in defin.values()}) > 1:
+        return 'disagree', '', time.time() - t0, by
+    if first:
+        return res[first][0], res[first][1], res[first][2], by
+    v = 'error' if all(r[0] == 'error' for r in res.values()) else 'timeout' if any(r[0] == 'timeout' for r in res.values()) else 'unknown'
+    return v, '\n'.join(r[1] for r in res.values())[:2000], time.time() - t0, by
+
+
+def classify(out, dt, timeout):
+    lines = [l.strip() for l in out.split('\n') if l.strip()]
+    vi = next((i for i, l in enumerate(lines) if l in ('sat', 'unsat', 'unknown')), None)
+    if vi is None:
+        if any('timeout' in l.lower() or 'interrupted' in l.lower() for l in lines) or dt >= timeout - 1:
+            return 'timeout', out
+        return 'error', out
+    if any(l.startswith('(error') for l in lines[:vi]):
+        return 'error', out
+    v = lines[vi]
+    rest = lines[vi + 1:]
+    if v == 'unsat':
+        if any(l.startswith('(error') and not re.search(r'[Cc]annot get value|model is not available|get-value', l) for l in rest):
+            return 'error', out
+        return v, ''
+    if v == 'sat':
+        if any(l.startswith('(error') for l in rest):
+            return 'error', out
+        return v, '\n'.join(rest)
+    return ('timeout' if dt >= timeout * 0.9 else 'unknown'), out
+
+
+def run_queries(queries, cap, grace=2, workers=None, log=None):
+    """decide every query by a cvc5/z3-new portfolio, in parallel; case-split queries fan out into one solver run per case"""
+    workers = workers or max(2, (NCPU - 1) // 2)
     lock = threading.Lock()
+    jobs = []
+    for q in queries:
+        if q.cases:
+            head, tail = q.script.split('(check-sat)', 1)
+            for label, pins in q.cases:
+                jobs.append((q, label, head + pins + '\n(check-sat)' + tail))
+        else:
+            jobs.append((q, None, q.script))
+        q._res = []
 
-    def one(q):
-        v, out, dt = run_solver('cvc5', q.script, q.cap or cap, keep_as=re.sub(r'[^A-Za-z0-9_.-]', '_', q.name)[:80])
-        q.verdict, q.secs, q.raw = v, dt, out
-        if v == 'sat':
-            q.model = parse_model(out)
-        if log:
-            with lock:
-                log(f'  [cvc5] {v:8} {dt:7.1f}s  {q.name}')
-        return q
-
-    def two(q):
-        v, out, dt = run_solver('z3', q.script, z3cap, keep_as=re.sub(r'[^A-Za-z0-9_.-]', '_', q.name)[:80])
-        q.z3, q.z3_secs = v, dt
-        if v == 'sat' and not q.model:
-            q.z3_model = parse_model(out)
-        return q
+    def one(job):
+        q, label, script = job
+        r = portfolio(script, q.cap or cap, grace, q.name + ('.' + label if label else ''))
+        with lock:
+            q._res.append((label,) + r)
+            if log and (not label or r[0] != 'unsat'):
+                log(f'  [{"/".join(k + ":" + v for k, v in sorted(r[3].items()))}] {r[0]:8} {r[2]:7.1f}s  {q.name}{" [" + label + "]" if label else ""}')
     with ThreadPoolExecutor(max_workers=workers) as ex:
-        futs = [ex.submit(one, q) for q in queries]
-        futs2 = [ex.submit(two, q) for q in queries] if z3cap > 0 else []
-        for f in futs + futs2:
-            f.result()
+        list(ex.map(one, jobs))
+    for q in queries:
+        rs = q._res
+        q.secs = sum(r[3] for r in rs)
+        vs = [r[1] for r in rs]
+        q.by = {}
+        for r in rs:
+            for sv, v in r[4].items():
+                q.by.setdefault(sv, {})
+                q.by[sv][v] = q.by[sv].get(v, 0) + 1
+        if 'disagree' in vs:
+            q.verdict = 'disagree'
+        elif 'sat' in vs:
+            q.verdict = 'sat'
+            r = next(r for r in rs if r[1] == 'sat')
+            q.model = parse_model(r[2])
+            q.sat_case = r[0]
+        elif all(v == 'unsat' for v in vs):
+            q.verdict = 'unsat'
+        else:
+            q.verdict = next(v for v in vs if v not in ('unsat',))
+            q.raw = next((r[2] for r in rs if r[1] not in ('unsat',)), '')
+        if log and q.cases:
+            log(f'  [cases={len(rs)}] {q.verdict:8} {q.secs:7.1f}s  {q.name}')
     return queries
 
 
@@ -212,17 +301,11 @@ class Check:
     def absorb(s, queries):
         for q in queries:
             s.queries.append(q)
-            s.solver_seconds += q.secs + (q.z3_secs or 0)
-            if q.verdict in ('sat', 'unsat') and q.z3 in ('sat', 'unsat') and q.z3 != q.verdict:
-                s.inconclusive.append(f'solver disagreement on {q.name}: cvc5={q.verdict} z3={q.z3}')
-            if q.verdict not in ('sat', 'unsat'):
-                # fall back on z3's verdict when cvc5 gave none
-                if q.z3 in ('sat', 'unsat'):
-                    q.verdict = q.z3
-                    q.model = getattr(q, 'z3_model', {})
-                    q.decided_by = 'z3'
-                    continue
-                (s.inconclusive if q.required else s.not_covered).append(f'{q.name}: {q.verdict} after {q.secs:.0f}s')
+            s.solver_seconds += q.secs
+            if q.verdict == 'disagree':
+                s.inconclusive.append(f'solver disagreement on {q.name}: {q.by}')
+            elif q.verdict not in ('sat', 'unsat'):
+                (s.inconclusive if q.required else s.not_covered).append(f'{q.name}: {q.verdict} after {q.secs:.0f}s {str(q.raw)[:300] if q.verdict == "error" else ""}')
 
     def violation(s, text, case):
         os.makedirs(os.path.join(VERIF, 'replays'), exist_ok=True)
